@@ -25,7 +25,7 @@ BACKENDS = {
     'minisat': [], 'cadical': ['--sat-solver', 'cadical'], 'kissat': ['--external-sat-solver', 'kissat'],
     'z3': ['--z3'], 'cvc5': ['--cvc5'],
 }
-RT_LOOPS = ['__verif_memset.0', '__verif_memcpy.0', '__verif_memmove.0', '__verif_memmove.1'] + \
+RT_LOOPS = ['__verif_memset.0', '__verif_memcpy.0', '__verif_memmove.0', '__verif_memmove.1', 'rt_alloc.0'] + \
     ['__verif_mem%s%d.%d' % (k, w, i) for w in (16, 32, 64) for k, i in (('set', 0), ('cpy', 0), ('move', 0), ('move', 1))]
 CBMC_BASE = ['--unwinding-assertions', '--drop-unused-functions', '--no-malloc-may-fail',
              '--no-signed-overflow-check', '--no-undefined-shift-check', '--no-pointer-primitive-check',
@@ -155,11 +155,14 @@ class Runner:
     # ------------------------------------------------------------------ cbmc
     def cbmc_cmd(self, ob, extra_defines=(), trace_property=None, backend=None, unwindset_override=None):
         u = self.units[ob.unit]
-        cmd = ['cbmc', self.goto_binary(u, list(ob.defines) + list(extra_defines))]
+        gb, hloops = self.goto_binary(u, list(ob.defines) + list(extra_defines))
+        cmd = ['cbmc', gb]
         cmd += ['--function', ob.fn, '--unwind', str(ob.unwind)] + CBMC_BASE + BACKENDS[backend or ob.backend] + ob.flags
         ov = dict(getattr(ob, 'unwind_refined', {})); ov.update(unwindset_override or {})
         us = ['%s:%d' % kv for kv in ov.items()] + [x for x in ob.unwindset if x.split(':')[0] not in ov]
         us += ['%s:%d' % (l, ob.mem_unwind) for l in RT_LOOPS if not any(x.startswith(l + ':') for x in us)]
+        hu = getattr(ob, 'harness_unwind', None)
+        if hu: us += ['%s:%d' % (l, hu) for l in hloops if not any(x.startswith(l + ':') for x in us)]
         cmd += ['--unwindset', ','.join(us)]
         if trace_property: cmd += ['--trace', '--property', trace_property]
         return cmd
@@ -179,9 +182,21 @@ class Runner:
                 cmd += ['-I' + RT, '-I' + u.dir, '-I' + os.path.join(ROOT, 'props', self.id)] + u.inc + ['-D' + x for x in defines]
                 rc, o, e, t = sh(cmd, timeout=900)
                 if rc != 0: ev['err'] = (o + e)[-2000:]
-                else: ev['path'] = out
+                else:
+                    # loops of the harness side (harness sources and rt models): their bounds are constants of the harness and get
+                    # ob.harness_unwind, so that --unwind can stay at the (small) bound meant for the loops of the code under test
+                    ev['hloops'] = []
+                    rc2, o2, e2, t2 = sh(['cbmc', out, '--show-loops', '--json-ui'], timeout=300)
+                    try:
+                        hp = set(os.path.abspath(x) for x in self.hpaths(u))
+                        for el in json.loads(o2):
+                            for l in el.get('loops', []):
+                                if os.path.abspath(l.get('sourceLocation', {}).get('file', '')) in hp: ev['hloops'].append(l['name'])
+                    except Exception: pass
+                    ev['path'] = out
         if ev['err']: raise Inconclusive('goto-cc failed for unit %s %s:\n%s' % (u.name, defines, ev['err']))
-        return ev['path']
+        self.last_hloops = ev.get('hloops', [])
+        return ev['path'], ev.get('hloops', [])
 
     def run_cbmc(self, ob, extra_defines=(), trace_property=None, backend=None, timeout=None, unwindset_override=None):
         to = timeout or ob.timeout or (180 if self.tier == 'quick' else 1800)
